@@ -8,9 +8,11 @@ from spec import rfc8017
 SIG = {
     'hmac': {'sort': 'bytes', 'uf': True, 'facts': ['len(result) == rfc8017.hlen(alg)']},
     'bits2int': 'int', 'int2octets': 'bytes', 'bits2octets': 'bytes', 'generate_k': 'int',
-    # step h, see gen_k_from below
-    'gen_k_from': {'sort': 'int', 'uf': True, 'facts': [
-        'result == ite(len(T) < rlen8, '
+    # step h, see gen_k_from / unfold below
+    'gen_k_from': {'sort': 'int', 'uf': True},
+    'unfold': {'sort': 'bool', 'uf': True, 'facts': [
+        'result',
+        'gen_k_from(alg, K, V, T, q, qlen, rlen8) == ite(len(T) < rlen8, '
         'gen_k_from(alg, K, hmac(alg, K, V), T + hmac(alg, K, V), q, qlen, rlen8), '
         'ite(0 < bits2int(T, qlen) and bits2int(T, qlen) < q, bits2int(T, qlen), '
         'gen_k_from(alg, hmac(alg, K, V + b"\\x00"), hmac(alg, hmac(alg, K, V + b"\\x00"), V), b"", q, qlen, rlen8)))']},
@@ -69,8 +71,14 @@ def v_g(alg, hlen_, x, h):
 #   h.1  T = empty          h.2  while tlen < qlen: V = HMAC_K(V); T = T || V       (the library compares octet counts:
 #        len(T) < rlen8 = ceil(qlen/8), the same condition because each V has whole octets)
 #   h.3  k = bits2int(T); if 1 <= k <= q-1 return k; else K = HMAC_K(V || 0x00), V = HMAC_K(V), and start again at h.1
-# gen_k_from is an uninterpreted symbol constrained by exactly this unfolding (a tail-recursive equation always has a
-# solution, so the fact is a conservative definition).
+# gen_k_from is an uninterpreted symbol; its defining equation (a tail-recursive equation always has a solution, so it is a
+# conservative definition) is made available ONE GROUND INSTANCE AT A TIME: unfold(state) is the constant true and its
+# mention in a clause adds the equation for exactly that state (DESIGN 2.6: lemma instances are named at program points).
+
+
+def unfold(alg, K, V, T, q, qlen, rlen8):
+    pass
+
 
 def gen_k_from(alg, K, V, T, q, qlen, rlen8):
     pass
